@@ -131,7 +131,11 @@ def run(ctx, prog):
             n_paths += 1
             calls = [e for e in path.events if e[0] == "call"]
             names = [c[1].split("::")[-1] for c in calls]
-            where = fn.loc(calls[0][3]) if calls else fn.where
+            # the first emitting call may sit in an inlined helper: its statement id is then not one of fn's
+            where = fn.where
+            if calls and calls[0][3] < len(fn.stmts) and fn.s(calls[0][3])["k"] in P.CALL_KINDS and \
+                    fn.s(calls[0][3]).get("callee", {}).get("q") == calls[0][1]:
+                where = fn.loc(calls[0][3])
             ok, why = check_path(fn, kind, calls, names, path)
             rng = ""
             for s, r in path.pc.items():
@@ -183,19 +187,27 @@ def run(ctx, prog):
         import re
         m = re.search(r"integral_constant<[^,]+, (\d+)>", fn.params[1]["t"])
         N = int(m.group(1)) if m else None
-        pairs = set()
-        for i, st in fn.calls():
-            if st["callee"]["q"].endswith("swapBytes"):
-                idx = []
-                for a in st["args"]:
-                    sa = fn.s(fn.strip(a, casts=True))
-                    if sa["k"] == "ArraySubscriptExpr":
-                        idx.append(fn.const(sa["c"][1]))
-                if len(idx) == 2:
-                    pairs.add(tuple(sorted(idx)))
-        want = {(i, N - 1 - i) for i in range(N // 2)} if N else None
-        ctx.ob(rule, "fixEndianness<%s> reverses the bytes" % N, pairs == want, fn.where,
-               "swaps %s" % sorted(pairs) if pairs == want else "swaps %s, a byte reversal needs %s" % (sorted(pairs), sorted(want or [])))
+        # evaluated, not pattern-matched: the N bytes p designates are symbols b0..b(N-1);
+        # afterwards cell k must hold b(N-1-k) (lib/pieces.py), whatever the shape of the swaps
+        from lib import pieces
+        box = {"b%d" % k_: (0, 255) for k_ in range(N or 0)}
+        ok = None
+        why = ""
+        try:
+            m_ = pieces.Machine(prog, box, max_unroll=16)
+            m_.fields = {}
+            m_.garrays["bytes"] = [pieces.Aff.sym("b%d" % k_) for k_ in range(N)]
+            fr_ = pieces.Machine.Frame(fn)
+            fr_.env[fn.params[0]["d"]] = pieces.Ptr("bytes", 0)
+            fr_.env[fn.params[1]["d"]] = None
+            m_.run_fn(fr_)
+            got = m_.garrays["bytes"]
+            ok = all(got[k_] == pieces.Aff.sym("b%d" % (N - 1 - k_)) for k_ in range(N))
+            why = "cell k holds byte N-1-k for every k" if ok else "after the call the bytes are %s, a reversal is %s" % (
+                [repr(x) for x in got], ["b%d" % (N - 1 - k_) for k_ in range(N)])
+        except (pieces.Unsupported, pieces.Hazard, pieces.Split) as ex:
+            why = "not evaluable: %s" % ex
+        ctx.ob(rule, "fixEndianness<%s> reverses the bytes" % N, ok, fn.where, why)
     big_endian = any(f.endswith("LITTLE_ENDIAN=0") for f in prog.flags)
     if not big_endian:
         ctx.floor(rule, "fixEndianness overloads", ns, 3)
